@@ -83,7 +83,13 @@ def phase_of(op, box_root=None):
         return "config-" + ("open" if k.startswith("open") else k)
     if base.startswith("Breadlog.lock"):
         return "lock-" + {"openr": "read-open", "openw": "open", "write": "write", "close": "close"}.get(k, k)
-    if base.startswith("breadlog-") and (base.endswith(".tmp") or base.endswith(".tmp (deleted)")):
+    if "Breadlog.lock" in base and base != "Breadlog.lock":
+        # the lock's own scratch file, whatever it is called (Breadlog.lock.tmp, .Breadlog.lock.123.tmp, ...)
+        return "lock-" + {"openr": "read-open", "openw": "open", "write": "write", "close": "close", "rename": "rename", "unlink": "unlink", "fsync": "fsync"}.get(k, k)
+    is_scratch = (base.startswith("breadlog-") and (base.endswith(".tmp") or base.endswith(".tmp (deleted)"))) or \
+                 (k in ("openw", "write", "pwrite", "close", "unlink", "rename", "fsync", "ftruncate") and not p.endswith(".rs") and not p.endswith(".rs (deleted)")
+                  and base not in ("Breadlog.yaml", "Breadlog.lock") and ("/src/" in p or "/tmp/" in p) and "." in base and k != "opendir")
+    if is_scratch:
         return "tmp-" + {"openw": "create", "write": "write", "close": "close", "unlink": "unlink", "rename": "rename", "fsync": "fsync"}.get(k, k)
     if k == "opendir":
         return "discovery"
